@@ -127,6 +127,8 @@ def spec_operator_tables(ck):
                         solver.add(z3.Not(z3.PrefixOf(z3.StringVal(s2), w)))
             r = solver.check()
             nq += 1
+            if r == z3.unsat and getattr(ck, 'xcheck', None) is not None and ck.xcheck.confirm_unsat(solver.assertions()) == 'disagree':
+                r = z3.unknown
             if r == z3.sat:
                 wv = solver.model()[w].as_string()
                 f = Finding(label, 'post', 'on input %r level %s picks %r' % (wv, where[key], None), None, 0, [], {'operator': sp, 'input': wv, 'level': where[key],
